@@ -62,6 +62,53 @@ def roundtrip_leg(chk, tier, arch):
         chk.sample({"archive": arch, "script": rows[len(rows) // 2]["root"], "opt": rows[len(rows) // 2].get("opt"), "expected_events": scen[len(rows) // 2]["exp"]})
 
 
+def fixedpoint_leg(chk, tier, arch):
+    """Load-save-load: documents rendered by the specification (every one the loader accepts) are loaded by a request
+    script, what was loaded is saved with the same script, and the saved document is loaded again: same observations."""
+    quick = tier == "quick"
+    widths = {"msgpack": "{0, 2}" if quick else "{0, 1, 2, 4, 5}", "json": "{0, 1}" if quick else "{0, 1, 2, 3, 4, 5, 6, 7, 8}", "xml": "{0, 1}" if quick else "{0, 1, 2, 3, 4, 5, 6}"}[arch]
+    sc = mp.gen("MC_LoadScript", {"Arch": '"%s"' % arch, "Mode": '"typed"', "MaxOps": 0, "Widths": widths, "Pads": "{0}"}, ["Export"], "fp-typed-" + arch, chk, timeout=3000, xmx="6g")
+    sc += mp.gen("MC_LoadScript", {"Arch": '"%s"' % arch, "Mode": '"skip"', "MaxOps": 1 if quick else 2, "Widths": widths, "Pads": "{0}"},
+                 ["Export"], "fp-skip-" + arch, chk, timeout=3000, xmx="6g")
+    sc = [s for s in sc if s["root"]["k"] == "obj" and s["exp"]["exc"] == ["none"] and s.get("meta", {}).get("enc", "utf8") in ("utf8", "bin") and not s.get("meta", {}).get("bom")]
+    rows = [{"id": "fp%s%d" % (arch[0], i), "pol": s["pol"], "doc": s["doc"], "root": s["root"]} for i, s in enumerate(sc)]
+    sp = os.path.join(vlib.scratch(), "fp_%s.ndjson" % arch)
+    vlib.write_ndjson(sp, rows)
+    obs = vlib.run_resumable([mp.harness(256, arch), "fixedpoint", sp], timeout=2400)
+    os.unlink(sp)
+    for o in obs:
+        row = rows[o["run"]]
+        if "e" in o:
+            chk.fail("%s load-save-load: %s" % (arch, o["e"]), {"scenario": row, "observed": o})
+            continue
+        f, s2 = o["first"], o["second"]
+        if f["exc"] != ["none"]:
+            continue            # the loader did not accept the document
+        ok = o["excsave"] == ["none"] and s2 is not None and s2["exc"] == ["none"] and s2["ev"] == f["ev"]
+        dev = None
+        if not ok and arch == "xml" and o["excsave"] == ["none"] and s2 is not None and s2["exc"] == ["none"]:
+            # guard of Dev_XmlNullOrEmptyContainerMismatch: the only difference is a scope in which nothing was loaded
+            # (it is saved as an element without children, which XML cannot tell from null)
+            def strip_empty_scopes(ev):
+                out = []
+                for e in ev:
+                    out.append(e)
+                    if e[0] == "close":
+                        j = len(out) - 2
+                        while j >= 0 and out[j][0] in ("req", "attr") and out[j][1] is False:
+                            j -= 1
+                        if j >= 0 and out[j] == ["open"]:
+                            del out[j:]
+                return out
+            if strip_empty_scopes(f["ev"]) == strip_empty_scopes(s2["ev"]):
+                dev = "Dev_XmlNullOrEmptyContainerMismatch"
+        if not ok:
+            chk.fail("%s load-save-load is not a fixed point: first load %d events, save %s, second load %s" % (
+                arch, len(f["ev"]), json.dumps(o["excsave"]), "none" if s2 is None else json.dumps(s2["exc"])),
+                {"scenario": row, "first": f, "saved": o["saved"][:400], "second": s2}, dev=dev)
+    chk.add_cases(len(rows), distinct_keys=(("fp", arch, json.dumps(x["doc"]), json.dumps(x["root"])) for x in rows), validated=len(rows))
+
+
 def run_check(tier):
     chk = Check("C01", tier)
     chk.cov["rule"] = ("case = (save script with typed values, archive, output configuration) saved by the real archive to memory and to a stream and "
@@ -72,6 +119,8 @@ def run_check(tier):
                         "CSV round trips are decided by C09 (tables) - the scripted driver here covers MsgPack, JSON and XML"]
     for arch in ("msgpack", "json", "xml"):
         roundtrip_leg(chk, tier, arch)
+    for arch in ("msgpack", "json", "xml"):
+        fixedpoint_leg(chk, tier, arch)
     return chk.finish()
 
 
